@@ -1,7 +1,7 @@
 (* Extraction of the executable model to OCaml.  Only ExtrOcamlBasic is used:
    numbers stay Coq's positive/N/Z datatypes. *)
 From Coq Require Import ZArith List Extraction ExtrOcamlBasic.
-From IVG Require Import SF NumCodec Color Calls Decoder Encoder Render Gradient GoMath Arc Fit Generator.
+From IVG Require Import SF NumCodec Color Calls Decoder Encoder Render Gradient GoMath Arc Fit Generator PathData.
 Extraction Language OCaml.
 Extraction "model.ml"
   SF.fadd SF.fsub SF.fmul SF.fdiv SF.fsqrt SF.fcompare SF.of_Z SF.convert SF.ffloor SF.fceil SF.ftrunc
@@ -18,4 +18,5 @@ Extraction "model.ml"
   GoMath.gosin GoMath.gocos GoMath.goacos
   Fit.F32ops Fit.vb_size Fit.aspect_meet Fit.aspect_slice
   Generator.set_gradient Generator.linear_matrix Generator.circular_matrix Generator.elliptical_matrix
-  Generator.concat Generator.mul_aff3 Generator.translate Generator.scale2.
+  Generator.concat Generator.mul_aff3 Generator.translate Generator.scale2
+  PathData.set_path_data PathData.md_parse_path PathData.md_parse_path_data.
